@@ -112,7 +112,7 @@ package fastcgi
 //@   at call (*github.com/tmpim/casket/casketfile.Dispenser).NextBlock do blockEntriesRead = blockEntriesRead + 1
 //@   loop 2 invariant c != nil && len(upstreams) >= 1 && (srvUpstream ==> strings.HasPrefix(upstreams[0], "srv://"))
 
-//@ unit setup_sweep props=C11 files=setup.go nilchecks=on nonnil_params=on dispenser_variants=on exclude=`fastcgi\.(fastcgiParse|parseSRV)$` filter=`.`
+//@ unit setup_sweep props=C11,C08 files=setup.go nilchecks=on nonnil_params=on dispenser_variants=on exclude=`fastcgi\.(fastcgiParse|parseSRV)$` filter=`.`
 //@ // Safety sweep of this directive's setup code: index, slice, division, nil-map store, nil dereference, explicit panic,
 //@ // and termination of the loops driven by the token cursor. No functional contract; callees in the dispenser through their contracts.
 //@ use casketfile/contracts_verif.go:dispenser_api
